@@ -23,7 +23,13 @@ PROP = "C05"
 
 def rep_events():
     combos = [((), ()), ((0,), ()), ((2,), (0,)), ((2, 3), ()), ((0, 2), (1,)), ((1, 0), ()), ((3, 2), (1, 0)), ((1,), (0,))]
-    return [Event(i, (("A", tuple(ARCH[k] for k in p)), ("B", tuple(SEC[k] for k in s)), ("EI", (EI,)))) for i, (p, s) in enumerate(combos)]
+    evs = [Event(i, (("A", tuple(ARCH[k] for k in p)), ("B", tuple(SEC[k] for k in s)), ("EI", (EI,)))) for i, (p, s) in enumerate(combos)]
+    # events of a differently processed file: a collection is not there at all (not: empty).  The job must fail on them
+    # (ATLAS: failed retrieve; CMS: invalid handle) - it must not carry on and leak what it had already filled.
+    n = len(evs)
+    evs.append(Event(n, (("A", (ARCH[2], ARCH[3])), ("EI", (EI,)))))          # no bank B
+    evs.append(Event(n + 1, (("B", (SEC[0], SEC[1])), ("EI", (EI,)))))        # no bank A
+    return evs
 
 
 def plans(n, tier):
